@@ -1,7 +1,8 @@
 (* C13 — commands run verbatim; only the documented output transformations.  (a) script template, (b) CRLF. *)
-From Coq Require Import List NArith Bool Arith Lia.
+From Coq Require Import List NArith ZArith Bool Arith Lia.
 Import ListNotations.
 From SV Require Import Template TemplateProofs gen_Template TemplateModel Crlf CrlfProofs.
+From SV Require Import Lines ScriptExec ScriptExecProofs Render.
 Local Open Scope N_scope.
 
 (* the expression is substituted last (checked against the order regenerated from bash_runner.rs on this run) *)
@@ -69,6 +70,24 @@ Check C13_expression_verbatim : forall sd name detached i,
 Example C13_crlf_instance : replace_crlf [97; 13; 10; 13; 13; 10; 98; 13] = [97; 10; 13; 10; 98; 13].
 Proof. vm_compute. reflexivity. Qed.
 
+(* (c) Cram documents run as ONE script; the outputs of the test cases are separated by divider lines.  What an ideal
+   bash prints for the compiled script -- every payload, wherever it ends (with or without a final newline, any
+   bytes), followed by the divider line with the index and the exit code -- is split back into exactly those
+   payloads and exit codes, for any number of test cases, provided no payload contains the divider prefix (the salt
+   is alphanumeric; indices below 2^64, codes in the i32 range). *)
+Theorem C13_divider_split_ideal : forall salt outs i, salt_ok salt -> Forall payload_ok outs ->
+  i + N.of_nat (length outs) <= 18446744073709551616 ->
+  iterate (split_lines (ideal salt i outs)) [] i = Some outs.
+Proof. exact split_ideal. Qed.
+(* the premise is needed: the listed known finding (the salt is never compared when the output is read back) *)
+Example C13_divider_prefix_in_payload_refuted :
+  let spoof := PREFIX ++ [120; 58; 58; 48; 58; 58; 48; 10] in              (* ~~~~~~~~EXECDIVIDER::x::0::0 *)
+  split_outputs (ideal [115] 0 [(spoof, 0%Z)]) <> Some [(spoof, 0%Z)].
+Proof. cbv zeta. vm_compute. discriminate. Qed.
+Example C13_divider_instance :          (* two test cases: "a\nb" without final newline and exit code 3, then nothing and 0 *)
+  split_outputs (ideal [115; 65; 55] 0 [([97; 10; 98], 3%Z); ([], 0%Z)]) = Some [([97; 10; 98], 3%Z); ([], 0%Z)].
+Proof. vm_compute. reflexivity. Qed.
+
 Print Assumptions C13_expression_last.
 Print Assumptions C13_expression_verbatim.
 Print Assumptions C13_replace_crlf.
@@ -90,3 +109,4 @@ Proof.
 Qed.
 Print Assumptions C13_capture_untouched.
 Print Assumptions C13_capture_conserves_bytes.
+Print Assumptions C13_divider_split_ideal.
